@@ -55,6 +55,14 @@ func init() {
 	})
 }
 
+// c14Fragments: the three well-formed deposits plus two of the hostile ones, chosen per case
+func c14Fragments(r *Rng) []string {
+	hostile := []string{"depositTipAboveAmount", "depositTipEqualsAmount", "depositBadRecipient", "depositForeignPrefix", "depositSubUnit", "depositHuge", "depositTruncated", "depositZero"}
+	i := r.Pick(len(hostile))
+	j := (i + 1 + r.Pick(len(hostile)-1)) % len(hostile)
+	return []string{"deposit1", hostile[i], "deposit2", hostile[j], "deposit3"}
+}
+
 func disputeProfile(name string) Profile {
 	return Profile{Name: name, MinTx: 3, MaxTx: 8, Hostile: 0.12, VoteFault: 0.0, GapBig: 0.10, Gov: false,
 		W: map[string]float64{"proposeDispute": 7, "addFee": 5, "vote": 14, "withdrawFeeRefund": 5, "claimReward": 5, "addEvidence": 1.5, "tip": 8, "submit": 18,
@@ -121,7 +129,7 @@ func init() {
 	Register(&PropDef{ID: "C10",
 		Profile: func(tier string, r *Rng) Profile {
 			return Profile{Name: "c10-power", MinTx: 3, MaxTx: 9, Hostile: 0.1, VoteFault: 0.06, GapBig: 0.06, Gov: true,
-				W: map[string]float64{"submit": 30, "tip": 8, "delegate": 10, "undelegate": 6, "redelegate": 5, "createReporter": 6, "selectReporter": 8, "switchReporter": 6, "removeSelector": 2,
+				W: map[string]float64{"submit": 30, "tip": 8, "delegate": 10, "undelegate": 6, "redelegate": 5, "createReporter": 6, "selectReporter": 8, "switchReporter": 12, "removeSelector": 2,
 					"unjailReporter": 4, "proposeDispute": 3, "vote": 3, "createValidator": 1.5, "unjailVal": 1.5, "govProposal": 1, "govVote": 4, "cancelUnbond": 1.5}}
 		},
 		World: func(cfg *WorldCfg, r *Rng) {
@@ -134,7 +142,7 @@ func init() {
 		Profile: func(tier string, r *Rng) Profile {
 			return Profile{Name: "c14-bridge", MinTx: 2, MaxTx: 6, Hostile: 0.2, VoteFault: 0.0, GapBig: 0.05, Gov: false,
 				W:         map[string]float64{"withdrawTokens": 10, "claimDeposits": 8, "submit": 14, "tip": 5, "proposeDispute": 3, "addEvidence": 1, "vote": 2, "undelegate": 0.5, "redelegate": 0.5, "delegate": 2},
-				Fragments: []string{"deposit1", "deposit2", "deposit3"}}
+				Fragments: c14Fragments(r)}
 		},
 		Monitors: func(st *Stats) []Monitor { return []Monitor{NewC14Monitor(st)} }, Cases: tierMap(32, 96), Blocks: tierMap(160, 400)})
 }
@@ -150,6 +158,12 @@ func init() {
 		cfg.ExtraVals = 3
 		cfg.MaxValidators = uint32(cfg.NumVals + r.Pick(3))
 		cfg.ValStake = [][]int64{{5000, 3000, 2000, 2000, 1000, 1000}, {1000, 1000, 1000, 1000, 1000, 1000}, {900, 300, 200, 100, 50, 20}, {2, 2, 1, 1, 1, 1}}[r.Pick(4)]
+		if r.Chance(0.1) {
+			// a larger set: 12-24 validators, many of them with equal power
+			cfg.NumVals = 12 + r.Pick(13)
+			cfg.MaxValidators = uint32(cfg.NumVals + r.Pick(3))
+			cfg.ValStake = []int64{500, 500, 300, 300, 300, 200, 100, 100, 100, 100, 50, 50}
+		}
 	}
 	Register(&PropDef{ID: "C16", Profile: func(tier string, r *Rng) Profile { return bridgeProfile("c16-valset") }, World: world,
 		Monitors: func(st *Stats) []Monitor { return []Monitor{NewC16Monitor(st)} }, Cases: tierMap(40, 128), Blocks: tierMap(300, 800)})
